@@ -72,12 +72,12 @@ func main() {
 	}
 	st := map[string]any{
 		"seed": seed, "tier": tier, "ops": 0, "cases": 0, "distinct_nontrivial": 0, "histogram": map[string]int{"oracle:C16:process-crash-in-real-code": 1},
-		"oracle_failures": []drv.OracleFailure{{
+		"oracle_failures": append(note.Failures, drv.OracleFailure{
 			Signature: "C16:process-crash-in-real-code",
 			Desc:      fmt.Sprintf("the driver process died (%v) during %q of case %q: %s", runErr, note.InFlight, note.Case, first),
 			Case:      note.Case,
 			Replay:    map[string]any{"history": note.History, "op_in_progress": note.InFlight, "stderr": stderr},
-		}},
+		}),
 		"samples": []string{}, "extra": map[string]any{},
 	}
 	bz, _ := json.MarshalIndent(st, "", " ")
